@@ -192,7 +192,7 @@ impl Monitor for C06 {
 }
 
 pub fn run(p: &Params) -> Report {
-    let total = p.n(160, 3200);
+    let total = p.n(200, 6000);
     let mine = p.share(total);
     let mut rng = Rng::new(p.shard_seed() ^ 0xC06);
     let mut mon = C06 { rep: Report::new("C06"), case_seed: 0, r: Rng::new(p.shard_seed() ^ 6) };
